@@ -1,7 +1,7 @@
 (* C03 — A restart changes nothing observable.
    Only statements, each closed by [exact] of a lemma proved in Proofs/, and Print Assumptions. *)
-From DV Require Import Base.Prelude Model.Persist Model.IDs Model.MapLog
-     Proofs.Persist Proofs.IDs Proofs.MapLog Proofs.Restart.
+From DV Require Import Base.Prelude Model.Persist Model.Heads Model.IDs Model.MapLog
+     Proofs.Persist Proofs.IDs Proofs.MapLog Proofs.Restart Proofs.Heads.
 Local Open Scope N_scope.
 
 (* ---- repos, version DAG, commit flags, instances ---- *)
@@ -57,6 +57,45 @@ Theorem C03_branch_heads_examples :
    branch_head m 1 0 = Some 5).
 Proof. exact branch_head_examples. Qed.
 Print Assumptions C03_branch_heads_examples.
+
+(* Round 4.  The CACHE of the repaired code (Model.Heads.hstep: branchToUUID is replaced from the DAG
+   by newRepo, newVersion and accepted merges only; commit, instance creation/deletion, repo deletion
+   and REFUSED requests do not touch it; a refused merge changes nothing at all) against the cache
+   start-up builds (hrestart).  For EVERY request list -- no acceptance hypothesis -- from every
+   state where memory, cache and store agree (hgood), cut anywhere: the restart succeeds, shows the
+   same repos, resolves every branch name of every repo there is to the same node as the running
+   server's cache, and is a state the theorem applies to again.  By induction over the requests. *)
+Theorem C03_branch_heads_cache_restart : forall C m hc img ops, hgood m hc img ->
+  let '(m', hc', img') := hrun_img C m hc img ops in
+  exists mr hcr imgr, hrestart C img' = Ok (mr, hcr, imgr) /\ hobs_eq m' hc' mr hcr /\ hgood mr hcr imgr.
+Proof. exact heads_restart_general. Qed.
+Print Assumptions C03_branch_heads_cache_restart.
+
+(* non-vacuity: the state of a server started on an empty store is such a state *)
+Example C03_hgood_initial : forall C, hgood (init_mgr C) [] (apply_ws empty_image (init_writes C)).
+Proof. exact hgood_init. Qed.
+Print Assumptions C03_hgood_initial.
+
+(* hence without any hypothesis: every request list on a new server; in addition the running
+   server's cache IS the DAG function (branch_head) for every repo there is *)
+Theorem C03_branch_heads_cache_from_init : forall C ops,
+  let '(m', hc', img') := hrun_img C (init_mgr C) [] (apply_ws empty_image (init_writes C)) ops in
+  exists mr hcr imgr, hrestart C img' = Ok (mr, hcr, imgr) /\ pobserve mr = pobserve m' /\
+    forall rid br, amem rid (m_repos m') = true ->
+      cached_head hcr rid br = cached_head hc' rid br /\ cached_head hc' rid br = branch_head m' rid br.
+Proof. exact heads_restart_from_init. Qed.
+Print Assumptions C03_branch_heads_cache_from_init.
+
+(* a history with refused merges (unlocked parent, a parent listed twice), evaluated *)
+Example C03_branch_heads_cache_example :
+  let '(m, hc, img) := hrun_img r_conf (init_mgr r_conf) [] (apply_ws empty_image (init_writes r_conf)) hx_ops in
+  map (cached_head hc 1) [0; 7; 8; 9] = [Some 4; Some 3; Some 5; None] /\
+  match hrestart r_conf img with
+  | Ok (mr, hcr, _) => map (cached_head hcr 1) [0; 7; 8; 9] = [Some 4; Some 3; Some 5; None] /\ pobserve mr = pobserve m
+  | _ => False
+  end.
+Proof. exact heads_cache_example. Qed.
+Print Assumptions C03_branch_heads_cache_example.
 
 (* The code as it stood: heads recomputed from LEAVES on load vs the live map kept by newRepo and
    newVersion ([live_head] / [rebuilt_head]). *)
